@@ -776,6 +776,9 @@ func (g *graph) compile(ctx context.Context, opt *graphCompileOptions) (*composa
 		outputType:    g.outputType(),
 		genericHelper: g.genericHelper,
 
+		inputConvertStreamPair:  g.inputStreamConvertPair,
+		outputConvertStreamPair: g.outputStreamConvertPair,
+
 		preBranchHandlerManager: &preBranchHandlerManager{h: g.handlerPreBranch},
 		preNodeHandlerManager:   &preNodeHandlerManager{h: g.handlerPreNode},
 		edgeHandlerManager:      &edgeHandlerManager{h: g.handlerOnEdges},
